@@ -12,6 +12,7 @@ mod respcheck;
 mod spaces;
 mod spec;
 mod subject;
+mod treewalk;
 
 use std::time::Instant;
 
